@@ -151,6 +151,22 @@ func (sc *scratch) offer(v1 []types.Transaction, v2 []types.V2Transaction, opt o
 			w.violate("C10", "revert-panic", fmt.Sprintf("RevertBlock panicked on a block that passed ValidateBlock (height %d): %s", sc.child(), p))
 		}
 		w.stats.Inc("probe.apply-revert-of-valid-probe")
+		// the reference ledger says which rule, if any, an accepted probe block breaks
+		if sc.ledger != nil {
+			var exp []types.FileContractID
+			for _, fce := range bs.ExpiringFileContracts {
+				exp = append(exp, fce.ID)
+			}
+			var re *ref.RuleError
+			if _, lerr := sc.ledger.Apply(b, exp); lerr != nil && errors.As(lerr, &re) {
+				w.violate(re.Property, "ledger-"+re.Rule, fmt.Sprintf("probe block at height %d was accepted by ValidateBlock but: %s", sc.child(), re.Detail))
+				switch re.Rule {
+				case "double-spend", "spend-nonexistent", "altered-parent", "double-resolution", "resolve-nonexistent", "prove-nonexistent":
+					// inputs or payouts backed by nothing: the block creates value
+					w.violate("C01", "accepted-block-mints", fmt.Sprintf("probe block at height %d was accepted by ValidateBlock although it pays out value that no unspent element backs: %s", sc.child(), re.Detail))
+				}
+			}
+		}
 	}
 	return verr, true
 }
